@@ -73,8 +73,13 @@ def reparse(kind, text, flags):
         return ("internal:" + type(e).__name__, repr(e)[:200])
 
 
-CONTEXT = {"Field", "FragmentSpread", "InlineFragment", "SelectionSet", "Directive", "Argument", "ObjectField", "VariableDefinition"}
+CONTEXT = {"Field", "FragmentSpread", "InlineFragment", "SelectionSet", "Directive", "Argument", "ObjectField", "VariableDefinition", "FieldDefinition", "InputValueDefinition",
+           "EnumValueDefinition"}
 _WRAPPED, _WRAPPED_SEEN = [], set()
+# members of type-system definitions: keyword of the enclosing definition, its class, the attribute holding the members
+TS_MEMBER = {"FieldDefinition": ("type", "ObjectTypeDefinition", "fields"),
+             "InputValueDefinition": ("input", "InputObjectTypeDefinition", "fields"),
+             "EnumValueDefinition": ("enum", "EnumTypeDefinition", "values")}
 
 
 def context_reparse(kind, piece, flags):
@@ -93,6 +98,8 @@ def context_reparse(kind, piece, flags):
         pre, post = "{ a(", "\n)}"
     elif kind == "VariableDefinition":
         pre, post = "query(", "\n){a}"
+    elif kind in TS_MEMBER:
+        pre, post = TS_MEMBER[kind][0] + " A {", "\n}"
     else:
         pre, post = "", "\nscalar A"
     if kind == "ObjectField":
@@ -115,6 +122,15 @@ def context_reparse(kind, piece, flags):
         if len(doc.definitions) != 1 or doc.loc != (0, len(wrapped)):
             odd = "document"
         d0 = doc.definitions[0]
+        if kind in TS_MEMBER:
+            kw, cls, attr = TS_MEMBER[kind]
+            members = getattr(d0, attr)
+            node = members[0]
+            if not (type(d0).__name__ == cls and d0.name.value == "A" and d0.name.loc == (len(kw) + 1, len(kw) + 2)
+                    and d0.description is None and not d0.directives and len(members) == 1 and d0.loc == (0, len(wrapped))
+                    and not getattr(d0, "interfaces", None)):
+                odd = cls
+            return ("ok", wrapped, node.to_dict(), len(pre), odd)
         if kind == "VariableDefinition":
             node = d0.variable_definitions[0]
             ss = d0.selection_set
